@@ -12,7 +12,7 @@ CHECKS = {
          "rejection iff not b*2^n, total conserved, two-step = one-step. Tied to the code by running model and "
          "implementation on the same seeded folds (all kinds, lengths to 2^32, both methods, options). Props/C07Route.lean: the fingerprint requested from the fingerprinter at b bits is the 2^32-bit fingerprint folded to b, whatever length the fingerprinter was built with; fold_guard / dbFold_guard: the model refuses exactly when the refusal guards translated statement by statement from the source (Gen.foldGuard) do. Props/C09Heap.lean (object model): a fold returns a new object (or the cached one), leaves the source's content unchanged, shares no container.",
          "Trusted: Lean kernel; extract.py's expression translation; harness canonicalisation; NumPy unique/int64 casts; "
-         "IEEE exactness of log2 on exact powers of two.", "DESIGN.md section 6 (C07)"),
+         "IEEE exactness of log2 on exact powers of two.", "DESIGN.md section 5 (C07)"),
  "C01": ("Lean 4 invariance theorems over the real-number instance of the polymorphic geometry + differential correspondence of the Float instance on rigid-motion twins",
          "The fingerprinter model takes geometry only through a Geo record (shell membership tests, stereo codes) built by Geo.ofCoords from the polymorphic functions of Model/Geom.lean; "
          "Props/C01.lean proves (fully, no partial lemma) that over the real-number instance Geo.ofCoords is invariant under every proper rigid motion (rigid_invariant: orthogonal R, det R = 1, any translation, every molecule, option set and level) and, with stereo off, under every isometry (isometry_invariant_nostereo). "
@@ -40,10 +40,10 @@ CHECKS = {
  "C12": ("Lean 4 theorems on the iteration (labels, truncation, termination) + differential correspondence of long vs limited runs",
          "Props/C12.lean on the discrete fingerprinter model: the label is the requested level; (growing) nesting, truncation and convergence theorems. Tied to the code by one run to L=14 per conformer queried at every level "
          "against separate runs limited to each k and a level -1 run.",
-         "Trusted: Lean kernel; extract.py; harness.", "DESIGN.md section 7 (C12)"),
+         "Trusted: Lean kernel; extract.py; harness.", "DESIGN.md section 5 (C12)"),
  "C18": ("Lean 4 frame and deletion theorems (coordinates of non-retained atoms are never read; hydrogens never retained; deleting ignored atoms leaves the fingerprint equal) + differential correspondence on displaced / deleted atoms",
          "Props/C18.lean: retained atoms are heavy (and bonded under exclusion); Geo.ofCoords is only evaluated at retained atoms; deleting the non-retained atoms (a strictly monotone renumbering of the retained ones, MonoRel) leaves every fingerprint equal (delete_floating_fingerprint_coords). Tied to the code by displacing hydrogens and floating atoms, deleting floating atoms, and checking floating atoms contribute when exclusion is off.",
-         "Trusted: Lean kernel; RDKit invariants under atom deletion (assumed, exercised).", "DESIGN.md section 7 (C18)"),
+         "Trusted: Lean kernel; RDKit invariants under atom deletion (assumed, exercised).", "DESIGN.md section 5 (C18)"),
  "C05": ("Lean 4 model of the CSR+names+props database with refinement theorems to a list of rows + differential correspondence on histories",
          "Machine-checked theorems (Props/C05.lean, Props/C05Hist.lean) over the database model (matrix rows, names, separately maintained name index, property "
          "columns): history_refines / faithful_container - EVERY history of operations (new, add, from_array, subset, as_type, fold, concat, set_prop, update_props, pickle, savez+load) run on the "
@@ -52,74 +52,74 @@ CHECKS = {
          "Tied to the code by dumping every live database after every step of seeded histories and comparing with the model, and by observing "
          "db[i], db[name], the name index and iteration against a plain list-of-rows oracle.",
          "Trusted: Lean kernel; SciPy CSR vstack/slicing/sum_duplicates, NumPy savez/load and pickle enter as their meaning and are compared on every run.",
-         "DESIGN.md section 6 (C05)"),
+         "DESIGN.md section 5 (C05)"),
  "C13": ("Lean 4 theorems on the model of filter_conformers (selection contract for every energy list and RMSD oracle) + differential correspondence with recorded energies/RMSDs",
          "Props/C13.lean: for all energies, all RMSD oracles and all options the accepted conformers are pairwise at least the cutoff apart, no more than `first`, reported energies and the reported "
          "RMSD matrix are those of the returned conformers in the returned order; targets are resolved per molecule. Tied to the code by recording the pool energies and every RMSD the real loop asks for, "
          "feeding them to the model, and re-measuring the returned molecule independently (pairwise GetBestRMS, SMILES, input unmodified, seed repeat, generator reuse). The generator object (CGen): runMols_eq_fresh - over any history of molecules each one gets the pool size, target and `first` a fresh generator resolves; the automatic target is Gen.genNumConf, translated statement by statement from get_num_conformers (genNumConf_spec); tied by driver op conf.gen_hist against embed_molecule over histories of molecules of every rotatable-bond class.",
          "Trusted: Lean kernel; RDKit embedding / force fields / GetBestRMS (numerical engines). Partial by nature: seed reproducibility and 'same molecule' are observed, not proved.",
-         "DESIGN.md section 7 (C13)"),
+         "DESIGN.md section 5 (C13)"),
  "C14": ("Lean 4 refinement theorem: the conformer loop of fprints_dict_from_mol on ONE reused fingerprinter object equals direct (fresh) fingerprinting of the first N conformers (composing the C04 history theorem and the C12 truncation theorem) + theorems on naming / first-N / level keys + differential correspondence of the whole returned dictionary",
          "Props/C14Entry.lean: entry_eq_direct (for every option set, molecule, conformer list, name, `first` and all_iters the model of the entry point returns, key by key and conformer by conformer, the fingerprint a fresh fingerprinter computes, named <molecule>_<index>), entry_count, entry_names(_nodup), entry_prefix, entry_alliters_eq_limited (each level's list equals a separate run limited to that level). "
          "Props/C14.lean: the loop processes all conformers for first = -1 or >= n and exactly `first` otherwise; suffix-free names get `_<index>` (and the exclusion is necessary: example); level keys. "
          "Props/C14Save.lean (the save step): a call that returns fingerprints has written exactly the returned list under each level key (save_consistent), also when only some of the molecule's files existed before (save_partial_rewrites_all); skip, other files untouched, idempotence. "
          "Tied to the code by running fprints_from_mol / fprints_dict_from_mol (all_iters) / fprints_from_sdf / fprints_from_smiles / save+reload (also into directories holding files of earlier runs; file states compared with the save-run model) and comparing with per-conformer Fingerprinter runs.",
-         "Trusted: Lean kernel; extract.py; RDKit SDF I/O, pickle/compression.", "DESIGN.md section 7 (C14)"),
+         "Trusted: Lean kernel; extract.py; RDKit SDF I/O, pickle/compression.", "DESIGN.md section 5 (C14)"),
  "C15": ("Lean 4 theorems on the batch model (collection is permutation-invariant, failures contribute nothing, existing files are never rewritten without overwrite) + real batch runs in three parallel modes with injected crashes",
          "Props/C15.lean: schedule_free (List.Perm of collected rows under any completion order), isolation, resume_safe (a path present before the run keeps its content when overwrite is off). Tied to the code by real runs of "
          "fingerprint.generate.run (serial / threads / processes x workers x shuffled inputs x unreadable inputs) compared with the model's collection of per-input results, and by killing the batch after the k-th save, re-running, and comparing SHA-256 of pre-existing outputs.",
          "Trusted: Lean kernel; Parallelizer / concurrent.futures / the OS. Partial by nature: OS scheduling and crash timing are sampled; MPI mode cannot run here and is not claimed.",
-         "DESIGN.md section 7 (C15)"),
+         "DESIGN.md section 5 (C15)"),
  "C19": ("Lean 4 theorems on the SDF write/read model (order, limits, 4-decimal energies) + differential correspondence",
          "Props/C19.lean: reading back what was written gives the first min(wlim, rlim) conformers in order; energies are rounded once (idempotent). Tied to the code by write/read cycles over three compressions, all limit pairs, "
          "sequential and non-sequential conformer ids, with the molecule's state compared before/after, and SMILES tables.",
          "Trusted: Lean kernel; extract.py; RDKit SDF record format and coordinate precision, codecs. Partial by nature: SDF text precision and codecs are observed, not proved.",
-         "DESIGN.md section 7 (C19)"),
+         "DESIGN.md section 5 (C19)"),
  "C20": ("kernel-decided coherence of the defaults table regenerated from the source (translator) + Lean round-trip theorems on the str()/literal_eval model + differential correspondence",
          "Props/C20.lean: defaults_coherent and defaults_cover are decided by `decide` over the complete table of 123 default declarations regenerated from /repo on every run (signatures, *_DEF constants, argparse parsers, generator class vs defaults.cfg); "
          "round-trip theorems for bool/None/int; Props/C20State.lean: the packaged file, the live default_params object and user files as a state machine - read_fallback, read_user_wins and read_history_free (a read with fill_defaults is a function of the packaged file and the user file only, after any history of the process). Tied to the code by writing/reading seeded option dictionaries of every scalar type through parameter files, by histories of derive / read / get_default on the real module (driver op cfg.hist), and by comparing fingerprints from a parameter file (pipeline route and batch route, library-written and hand-written) with the same options passed directly.",
          "Trusted: Lean kernel; extract.py (cross-checked against live inspect/argparse values); configparser, literal_eval, repr(float). Known findings: string options whose text is a Python literal change type; INI boolean spellings on the pipeline route; non-finite floats.",
-         "DESIGN.md section 7 (C20)"),
+         "DESIGN.md section 5 (C20)"),
  "C16": ("Lean 4 atomic-refusal theorems on the database model + differential correspondence with injected faults",
          "Machine-checked theorems (Props/C16.lean): add/set_prop/update_props refuse exactly the batches carrying a wrong level, wrong length, "
          "missing property or wrong column length at any position, and a refusal returns the database unchanged in every component. Tied to the code "
          "by histories with one injected fault per batch (kind x position) and full state dumps before/after.",
-         "Trusted: Lean kernel; harness dumps; SciPy/NumPy primitives compared on every run.", "DESIGN.md section 7 (C16)"),
+         "Trusted: Lean kernel; harness dumps; SciPy/NumPy primitives compared on every run.", "DESIGN.md section 5 (C16)"),
  "C06": ("Lean 4 theorems relating the three metric routes to the definitions (generated ratio expressions, merge-kernel induction) + differential correspondence",
          "Machine-checked theorems (Props/C06.lean, Props/C06Real.lean) about the model of fprint_metrics / array_metrics / the public dispatch in metrics/__init__ (routes_agree: fingerprint-vs-fingerprint, fingerprint-vs-database, database-vs-database and single-database forms give the same value, the one of the definition; ratio expressions regenerated from the source; the sparse "
          "Soergel kernel as the two-pointer merge it is): each route equals the definition, zero denominators score 0, symmetry, range, Soergel = Tanimoto on binary data. "
          "Tied to the code by evaluating five measures x eleven calling forms (fp/fp, fp/db, db/fp, db/db, single, fprint_metrics, dense, CSR canonical / shuffled / explicit zeros, assume_binary) "
-         "on seeded operand pairs and comparing with the model's exact rationals (or num/sqrt(rad)).",
+         "on seeded operand pairs and comparing with the model's exact rationals (or num/sqrt(rad)); the index walk of _sparse_soergel on raw CSR arrays (Props/C06Csr.lean); 0/1 rows sharing more than 2^24 on-bits against the closed forms in |A|, |B|, |A&B| proved equal to the definitions (Props/C06Counts.lean).",
          "Trusted: Lean kernel; extract.py; SciPy sparse product/norms, np.corrcoef, cdist, nan_to_num, Numba's compilation of the kernels enter as their meaning and are compared on every run; float results compared to 1e-9.",
-         "DESIGN.md section 6 (C06)"),
+         "DESIGN.md section 5 (C06)"),
  "C08": ("Lean 4 round-trip / key-set theorems on the database model (generated npz key table) + differential correspondence",
          "Machine-checked theorems (Props/C08.lean): the npz key set written equals the one read, no reserved key carries the property prefix and stripping inverts prefixing "
          "(decided over the table regenerated from db.py), pickle and savez/load are the identity on databases satisfying the invariant and idempotent. Tied to the code by "
          "savez/load and save/load cycles (1-3) on seeded databases compared field by field, and savetxt output parsed line by line.",
          "Trusted: Lean kernel; extract.py; NumPy npz (de)serialisation, pickle, gzip/bz2/smart_open compared on every run. Names ending in NUL are outside (NumPy U dtype strips them).",
-         "DESIGN.md section 6 (C08)"),
+         "DESIGN.md section 5 (C08)"),
  "C17": ("Lean 4 theorems on conversions between kinds + differential correspondence",
          "Machine-checked theorems (Props/C17.lean) on fromFingerprint / Db.asType: support preserved in all six directions, values preserved where representable; bit and count fingerprints "
          "built from the same identifier list have the same support and the counts are multiplicities; Props/C17Db.lean: a database conversion re-casts every stored entry in place (asType_rows) and preserves the non-zero columns of every row for the bit and float kinds, negative entries included (asType_support). Tied to the code by converting generated and derived (a-b) fingerprints and whole databases in every direction, mixed-kind batches, float databases with negative entries.",
          "Trusted: Lean kernel; NumPy astype casts compared on every run. Negative counts in *fingerprint objects* (a-b with b>a) are outside the quantifier (documented class invariant: counts > 0); negative entries of float databases are inside.",
-         "DESIGN.md section 7 (C17)"),
+         "DESIGN.md section 5 (C17)"),
  "C09": ("Lean 4 theorems on the equality model + differential correspondence",
          "Machine-checked theorems (Props/C09.lean): == decides content equality on the model of Fingerprint.__eq__/CountFingerprint.__eq__ "
          "(hence reflexive, symmetric, transitive, != its negation, never an error within a kind family); copies equal. Tied to the code "
          "by running ==/!= both ways on seeded near-variant pairs/triples and by mutating copies through every public setter. Props/C09Heap.lean on the object model (Model/FpHeap: a heap of containers, ownership, the linked fold cache): in every reachable heap no container is referred to by two objects (run_inv), an operation changes nothing observable about any object it is not applied to (step_frame), results are built from newly allocated containers, and protected_history / copy_independent / original_independent: whatever is done to a copy and to anything made after it never changes an older object, and vice versa. Tied to the code by histories of operations on live objects with every object and the sharing relation (is / np.shares_memory) compared after every step, and by observers that must answer like a fresh object of the same content.",
          "Trusted: Lean kernel; harness canonicalisation; pickle/deepcopy. Copy independence of caller-supplied mutable prop values is not claimed.",
-         "DESIGN.md section 6 (C09)"),
+         "DESIGN.md section 5 (C09)"),
  "C10": ("Lean 4 round-trip theorems on the representation model + differential correspondence",
          "Machine-checked round-trip theorems (Props/C10.lean) for index array, dense/sparse vector, bit string, RDKit bit vector, pickle state "
          "under the class invariant WF; tied to the code by running each route (incl. save/load files with all extensions) on seeded fingerprints "
          "with bits up to 2^32.",
          "Trusted: Lean kernel; RDKit bit vectors, pickle, gzip/bz2/smart_open, SciPy CSR construction are abstract injective encodings compared on every run.",
-         "DESIGN.md section 6 (C10)"),
+         "DESIGN.md section 5 (C10)"),
  "C11": ("Lean 4 set-algebra / pointwise-arithmetic theorems + differential correspondence (exhaustive for small lengths)",
          "Machine-checked theorems (Props/C11.lean): the five set operators denote union / intersection / difference / symmetric difference of the "
          "operands' bits, count + and - are pointwise, scalars scale, batch sum/mean are pointwise sums/means, results well-formed, length mismatch rejected. "
          "Tied to the code by exhaustive enumeration of all operand pairs for lengths <= 3 (4 in thorough) x 5 operators x plain/reflected/in-place forms and seeded samples to 2^32, operands read back from databases / narrow-dtype vectors, NumPy scalar factors, mixed-kind expressions; operands-unchanged is the frame theorem of the object model (Props/C09Heap.lean: step_frame, builds_new) over operator, scalar and batch operations in object histories.",
-         "Trusted: Lean kernel; NumPy set routines; float arithmetic exact on generated dyadic values.", "DESIGN.md section 6 (C11)"),
+         "Trusted: Lean kernel; NumPy set routines; float arithmetic exact on generated dyadic values.", "DESIGN.md section 5 (C11)"),
 }
 NOT_YET = {}
 
